@@ -48,6 +48,9 @@ func commit(rootGoitPath string, index *store.Index, head *store.Head, conf *sto
 	author := object.NewSign(conf.GetUserName(), conf.GetEmail())
 	committer := author
 	if err != nil {
+		if !os.IsNotExist(err) {
+			return fmt.Errorf("%w: %s", ErrIOHandling, branchPath)
+		}
 		// no branch means that this is the initial commit
 		data = []byte(fmt.Sprintf("tree %s\nauthor %s\ncommitter %s\n\n%s\n", treeObject.Hash, author, committer, message))
 	} else {
